@@ -493,6 +493,11 @@ def build_pop(spec, dim_names=None, n_ids=None):
         if n_ids is not None:
             m.set_n_ids(n_ids)
         names = base.get_parameter_names()
-        m.fix_parameters({names[j]: float(v) for j, v in zip(spec['fixed'], spec['values'])})
+        pairs = [(names[j], float(v)) for j, v in zip(spec['fixed'], spec['values'])]
+        # (several parameters are fixed in two separate calls: the fixed set is the union)
+        k = (len(pairs) + 1) // 2 if (len(pairs) >= 2 and sum(spec['fixed']) % 2 == 0) else len(pairs)
+        m.fix_parameters(dict(pairs[:k]))
+        if pairs[k:]:
+            m.fix_parameters(dict(pairs[k:]))
         return m
     raise ValueError(k)
